@@ -221,7 +221,7 @@ def coerce_readings(value):
 
 def sibling_explains(schema, value, is_valid):
     """True when `value` conforms to `schema` only thanks to an alternative: it is rejected by at least one branch of an
-    anyOf / oneOf (or one type of a type list, or the typed side of a nullable schema) somewhere along the value, i.e.
+    anyOf / oneOf (or the typed side of a nullable schema) somewhere along the value, i.e.
     a value derived by negating ONE alternative is accepted by a sibling one."""
     if not isinstance(schema, dict):
         return False
@@ -236,11 +236,7 @@ def sibling_explains(schema, value, is_valid):
         verdicts = [is_valid(value, typed), value is None]
         if any(verdicts) and not all(verdicts):
             return True
-    types = schema.get("type")
-    if isinstance(types, list) and len(types) > 1:
-        verdicts = [is_valid(value, {**schema, "type": t}) for t in types]
-        if any(verdicts) and not all(verdicts):
-            return True
+    # (a list of types is negated as a whole by the generator, not type by type: it is not an "alternative" here)
     if isinstance(value, dict):
         for name, sub in value.items():
             sub_schema = (schema.get("properties") or {}).get(name)
